@@ -365,7 +365,10 @@ def _canary_check() -> list[str]:
     global _CANARY
     if _CANARY is None:
         from pest import Parser
-        p = Parser.from_grammar('canary = { "c" }', optimizer=None)
+        # the canary goes through the ordinary backtracking paths (an optional that misses, a choice whose first
+        # alternative fails, a predicate, the end of a repetition) before its inner rule completes
+        p = Parser.from_grammar('canary = { "x"? ~ ("y" | inner) ~ !"z" ~ last* }\ninner = { "c" }\nlast = { "d" }',
+                                optimizer=None)
         ns: dict = {"__name__": "generated_canary"}
         exec(compile(p.generate(), "<canary>", "exec"), ns)  # noqa: S102
         _CANARY = (p, ns["parse"])
@@ -374,8 +377,10 @@ def _canary_check() -> list[str]:
                    ("generated module", lambda: _CANARY[1]("canary", "c"))):
         try:
             pairs = list(fn())
+            kids = list(pairs[0].children) if len(pairs) == 1 else []
             ok = (len(pairs) == 1 and pairs[0].tag is None and pairs[0].name == "canary"
-                  and (pairs[0].start, pairs[0].end) == (0, 1) and not list(pairs[0].children))
+                  and (pairs[0].start, pairs[0].end) == (0, 1) and len(kids) == 1 and kids[0].name == "inner"
+                  and kids[0].tag is None and (kids[0].start, kids[0].end) == (0, 1) and not list(kids[0].children))
         except Exception:  # noqa: BLE001
             ok = False
         if not ok:
@@ -427,7 +432,7 @@ def judge(judges, lines, res, case, rule, text, k, names_ok, tags_ok, rule_silen
             # the polluted call is polluted the same way)
             for nm in _canary_check():
                 v.append((j, f"after these calls, parse('canary', 'c') on an unrelated parser ({nm}) no longer returns its "
-                             "single untagged pair: the result of a call depends on earlier calls"))
+                             "untagged tree canary > inner: the result of a call depends on earlier calls"))
         elif j == "C06":
             for md in have:
                 r = res[md]
